@@ -184,7 +184,7 @@ func genCase(r *c.Rng) *Case {
 			k.SANs, k.NoSANs = creds, false
 		case 4: // a subset
 			k.SANs, k.NoSANs = creds[:1], false
-		default: // foreign names (kept from the generic generator) - see the known finding
+		default: // foreign names (kept from the generic generator): refused at authorization since 62bb26c
 			k.NoSANs = false
 		}
 		if r.Chance(3, 4) {
